@@ -17,6 +17,12 @@ func Stub_fmt_Errorf(format string, a ...any) error { return &StubError{format} 
 func Stub_fmt_Sprintf(format string, a ...any) string { return format }
 
 func Stub_log_Printf(format string, a ...any) {}
+func Stub_log_SetFlags(flag int)                  {}
+func Stub_log_Fatal(v ...any)                     { Exit() }
+func Stub_log_Fatalf(format string, v ...any)     { Exit() }
+func Stub_flag_Parse()                            {}
+func Stub_flag_Args() []string                    { return nil }
+func Stub_os_Exit(code int)                       { Exit() }
 
 func Stub_sort_Strings(x []string) {
 	for i := 1; i < len(x); i++ {
